@@ -595,6 +595,13 @@ func (s *sched) clientStep(c *cli) {
 			c.waiting = false
 			c.op++
 		}
+	case "await-total":
+		c.target = op.N
+		c.waiting = true
+		if c.nRep >= c.target {
+			c.waiting = false
+			c.op++
+		}
 	case "idle":
 		c.idle = true
 	case "close":
